@@ -50,6 +50,11 @@ CLAIMED = {
         note="Bounded: graphs W<=2,N<=2 (quick) / W<=3,N<=3 (thorough), Buffered N<=3/5, cap 0..2; random W<=4, caps {0,1,2,3,16}. Thread exit is observed via the drop of the upstream iterator; hang = no exit signal within 1.5-10 s for microsecond work (timing-only verdicts re-run once). std mpsc semantics trusted.",
         technique="TLA+ specs of Pipe (drop, panic+hook) and Buffered model-checked with TLC incl. negative controls; graph edge covers replayed as controlled schedules; recorded runs judged by TLC monitor/trace specs",
         ref="6 C09"),
+    "C16": dict(
+        text="spec/Windows.tla is the window stepping machine (one action per emitted window; CharStep/ByteStep with count_until as folds); TLC explores it for all texts up to 5 characters with byte lengths 1..4 x max 0..9 x context 0..3 x {char, byte} and checks partial tiling in every state, the context bound, full tiling at the end, failure only if a character is wider than the window, termination. Binding: all texts up to 3/4 characters over 6 slots (1-4 byte letters, 8-byte flag cluster, e+combining acute) x the same configurations x {char, byte, full} x both modes are replayed on the real windows(); random real texts up to 60 characters; Trace_Windows checks error/success rules, tiling, context containment and size, byte boundaries = prefix sums of the character boundaries, reported string = context slice, and (mechanism) equality with the stepping machine.",
+        note="Bounded as stated; the empty text is skipped. View trusted (unicode-segmentation cluster lengths). A hang is caught by the 5 s per-case watchdog.",
+        technique="TLA+ window stepping machine model-checked with TLC; TLC-enumerated texts/configurations replayed; recorded results validated by a TLC trace spec",
+        ref="6 C16"),
     "C19": dict(
         text="TLC explores every behaviour of the greedy training machine spec/BpeTrain.tla (merge any adjacent pair of maximal positive recounted frequency, left-to-right non-overlapping replacement) for small corpora with repeats/overlaps that are exhausted before the requested number of merges; invariants: no duplicate entry, table well-formed, at most the requested merges; termination; negative control (zero-frequency merging) violates NoDuplicates. CountReduce.tla covers the counting threads under every schedule. Binding: TLC-enumerated and random corpora are written to files, the real train_bpe runs with 0/1/3 threads, and each written table is validated by Trace_BpeTrain as a behaviour of the spec (ids 0..n-1, every entry a max-positive pair of the corpus as segmented so far; tie choice and split searched by TLC); the tables are then loaded into real tokenizers and checked with the C02/C04 clauses.",
         note="Bounded: <=3 distinct words (pool of 8, <=4 symbols) exhaustively; random <=6 words of <=7 letters over <=3 letters, <=24 merges. Corpora restricted to ASCII letters and single spaces (clean/NFKC identity). Thread schedules of the real counting stage are not controlled (result must be valid for each thread count).",
